@@ -45,6 +45,14 @@ macro_rules! write_period_separated {
     };
 }
 
+/// Returns the digits after the decimal point for a number of nanoseconds:
+/// as many as the value needs, and at least two.
+fn fraction_digits(nano: u32) -> String {
+    let digits = format!("{:0>9}", nano);
+    let significant = digits.trim_end_matches('0').len().max(2);
+    digits[..significant].to_string()
+}
+
 pub fn apply(lib: &Library) -> Result<String, Vec<Diagnostic>> {
     let mut visitor = LibraryRenderer::new();
     visitor
@@ -240,11 +248,14 @@ impl Visitor<Diagnostic> for LibraryRenderer {
         &mut self,
         node: &TimeOfDayLiteral,
     ) -> Result<Self::Value, Diagnostic> {
-        let (hr, min, sec, milli) = node.hmsm();
+        let (hr, min, sec, nano) = node.hmsn();
         self.write_ws(
             format!(
-                "TIME_OF_DAY#{:0>2}:{:0>2}:{:0>2}.{:0>2}",
-                hr, min, sec, milli
+                "TIME_OF_DAY#{:0>2}:{:0>2}:{:0>2}.{}",
+                hr,
+                min,
+                sec,
+                fraction_digits(nano)
             )
             .as_str(),
         );
@@ -261,12 +272,18 @@ impl Visitor<Diagnostic> for LibraryRenderer {
         &mut self,
         node: &DateAndTimeLiteral,
     ) -> Result<Self::Value, Diagnostic> {
-        let (hr, min, sec, milli) = node.hmsm();
+        let (hr, min, sec, nano) = node.hmsn();
         let (year, month, day) = node.ymd();
         self.write_ws(
             format!(
-                "DATE_AND_TIME#{:0>4}-{:0>2}-{:0>2}-{:0>2}:{:0>2}:{:0>2}.{:0>2}",
-                year, month, day, hr, min, sec, milli
+                "DATE_AND_TIME#{:0>4}-{:0>2}-{:0>2}-{:0>2}:{:0>2}:{:0>2}.{}",
+                year,
+                month,
+                day,
+                hr,
+                min,
+                sec,
+                fraction_digits(nano)
             )
             .as_str(),
         );
